@@ -15,11 +15,14 @@ pub struct QDev {
     pub csum: ChecksumCapabilities,
     pub burst: Option<usize>,
     pub tx_total: u64,
+    /// the "hardware" fills in the IPv4 header checksum of what it transmits (for runs whose capabilities say that the
+    /// stack need not: Checksum::Rx / Checksum::None for ipv4)
+    pub hw_ipv4: bool,
 }
 
 impl QDev {
     pub fn new(medium: Medium, mtu: usize) -> QDev {
-        QDev { rx: VecDeque::new(), tx: Vec::new(), medium, mtu, prefill: 0xAA, tx_budget: None, csum: ChecksumCapabilities::default(), burst: None, tx_total: 0 }
+        QDev { rx: VecDeque::new(), tx: Vec::new(), medium, mtu, prefill: 0xAA, tx_budget: None, csum: ChecksumCapabilities::default(), burst: None, tx_total: 0, hw_ipv4: false }
     }
     pub fn take_tx(&mut self) -> Vec<Vec<u8>> {
         std::mem::take(&mut self.tx)
@@ -31,6 +34,7 @@ pub struct QTx<'a> {
     out: &'a mut Vec<Vec<u8>>,
     prefill: u8,
     total: &'a mut u64,
+    hw_ipv4: Option<usize>, // offset of the IP header when the device computes the IPv4 header checksum
 }
 
 impl RxToken for QRx {
@@ -49,6 +53,18 @@ impl<'a> TxToken for QTx<'a> {
     {
         let mut buf = vec![self.prefill; len];
         let r = f(&mut buf);
+        if let Some(o) = self.hw_ipv4 {
+            let is4 = buf.len() >= o + 20 && buf[o] >> 4 == 4 && (o == 0 || (buf[12] == 0x08 && buf[13] == 0x00));
+            if is4 {
+                let ihl = ((buf[o] & 0x0f) as usize) * 4;
+                if ihl >= 20 && buf.len() >= o + ihl {
+                    buf[o + 10] = 0;
+                    buf[o + 11] = 0;
+                    let c = crate::frames::csum(&buf[o..o + ihl]);
+                    buf[o + 10..o + 12].copy_from_slice(&c.to_be_bytes());
+                }
+            }
+        }
         self.out.push(buf);
         *self.total += 1;
         r
@@ -69,7 +85,8 @@ impl Device for QDev {
         if let Some(b) = self.tx_budget.as_mut() {
             *b -= 1;
         }
-        Some((QRx(f), QTx { out: &mut self.tx, prefill: self.prefill, total: &mut self.tx_total }))
+        let hw = if self.hw_ipv4 { Some(if self.medium == Medium::Ethernet { 14 } else { 0 }) } else { None };
+        Some((QRx(f), QTx { out: &mut self.tx, prefill: self.prefill, total: &mut self.tx_total, hw_ipv4: hw }))
     }
 
     fn transmit(&mut self, _t: Instant) -> Option<Self::TxToken<'_>> {
@@ -79,7 +96,8 @@ impl Device for QDev {
             }
             *b -= 1;
         }
-        Some(QTx { out: &mut self.tx, prefill: self.prefill, total: &mut self.tx_total })
+        let hw = if self.hw_ipv4 { Some(if self.medium == Medium::Ethernet { 14 } else { 0 }) } else { None };
+        Some(QTx { out: &mut self.tx, prefill: self.prefill, total: &mut self.tx_total, hw_ipv4: hw })
     }
 
     fn capabilities(&self) -> DeviceCapabilities {
